@@ -15,7 +15,7 @@ META = {
                   "(coq/Props/C18.v) hold for every input text and every oracle record, with no bound on length or nesting, "
                   "over a model of Reader/HyReader (every @reader_for handler, strings, bracket strings, f-strings) whose "
                   "tables are regenerated from hy/reader/*.py and whose behaviour is compared with hy.read_many on every "
-                  "run (outcome class and model tree; quick ~25k texts, thorough ~500k).",
+                  "run (outcome class and model tree; quick ~19k texts, thorough ~330k).",
     "level_note": "Trusted: Coq kernel; the model Reader/Model.v is hand-written and tied by differential execution, not "
                   "verified; its three oracles (number classification of as_identifier, escape decoding by CPython's "
                   "codecs, str.strip whitespace) are universally quantified in the theorems; Python's recursion limit is "
